@@ -17,7 +17,7 @@ Outcome RunC10(RunCtx& ctx)
 	if (s.chance(sim::L_CFG, 1, 2)) g.kindMask = s.draw(sim::L_CFG, 0xFFFFFFFFu) | (1u << static_cast<int>(K::I32));
 	SerializationOptions o = GenLoadOptions(s, sim::L_CFG, archive);
 	// regions of the findings owned by C01 are not entered here (they would only re-report the same defects)
-	if (archive == A_XML || archive == A_CSV) g.allowEmptyContainers = false;   // KF-XML-EMPTY-CONTAINER, KF-CSV-EMPTY-TABLE
+	if (archive == A_CSV) g.allowEmptyContainers = false;   // KF-CSV-EMPTY-TABLE
 	if (archive == A_JSON) g.simpleFloats = true;                               // KF-JSON-DOUBLE-PRECISION
 
 	DynNode doc = GenDocument(s, sim::L_DOC, g);
